@@ -263,7 +263,15 @@ func ruleX3(p *Program, r *Reporter) {
 			r.Anchor(id, "cache.(*RowCache)."+name)
 			continue
 		}
-		region := p.PrivateRegion(fn)
+		// the operation with the helpers private to the three maintenance operations
+		// (a helper shared by Create/Update/Delete is still theirs alone)
+		trio := p.PrivateRegion(p.Fn("cache", "RowCache", "Create"), p.Fn("cache", "RowCache", "Update"), p.Fn("cache", "RowCache", "Delete"))
+		region := map[*ssa.Function]bool{}
+		for _, g := range p.Reach(fn) {
+			if trio[g] && (g == fn || (g.Name() != "Create" && g.Name() != "Update" && g.Name() != "Delete") || g.Parent() != nil) {
+				region[g] = true
+			}
+		}
 		writesOf := func(g *ssa.Function) (idxW, rowW []ssa.Instruction) {
 			for _, b := range g.Blocks {
 				for _, ins := range b.Instrs {
@@ -474,9 +482,26 @@ func ruleX4(p *Program, r *Reporter) {
 		consumed, stops := false, true
 		if failEdge != nil && rfe != nil {
 			first := failEdge.Instrs[0]
-			esc, _ := escapesWithoutFrom(fn, failEdge, func(x ssa.Instruction) bool {
+			isRfe := func(x ssa.Instruction) bool {
 				cc, ok := x.(*ssa.Call)
 				return ok && cc.Call.StaticCallee() == rfe
+			}
+			esc, _ := escapesWithoutFrom(fn, failEdge, func(x ssa.Instruction) bool {
+				if isRfe(x) {
+					return true
+				}
+				// a same-package helper that turns an error into a result on all its paths
+				cc, ok := x.(*ssa.Call)
+				if !ok {
+					return false
+				}
+				g := cc.Call.StaticCallee()
+				if g == nil || pkgOf(g) != pkgOf(fn) || len(g.Blocks) == 0 || g.Signature.Results().Len() != 1 ||
+					!isNamed(g.Signature.Results().At(0).Type(), repoMod+"/ovsdb", "OperationResult") {
+					return false
+				}
+				gesc, _ := escapesWithoutFrom(g, g.Blocks[0], isRfe)
+				return !gesc
 			})
 			consumed = !esc
 			_ = first
